@@ -77,6 +77,13 @@ func (g *goTr) expr(e SExpr) string {
 		if g.inOld && g.isClosedPath(e) {
 			return g.snapshot(e)
 		}
+		// ghost view of a bytes.Buffer: the runes written so far and their number
+		if x.Name == "$out" {
+			return "[]rune((" + g.expr(x.X) + ").String())"
+		}
+		if x.Name == "$n" {
+			return "len([]rune((" + g.expr(x.X) + ").String()))"
+		}
 		return g.expr(x.X) + "." + x.Name
 	case *SIndex:
 		return g.expr(x.X) + "[" + g.expr(x.I) + "]"
@@ -96,6 +103,18 @@ func (g *goTr) expr(e SExpr) string {
 			return "(!(" + a + ") || (" + b + "))"
 		case "<==>":
 			return "((" + a + ") == (" + b + "))"
+		case "==":
+			return "govcEq(" + a + ", " + b + ")"
+		case "!=":
+			return "(!govcEq(" + a + ", " + b + "))"
+		case "<":
+			return "(govcCmp(" + a + ", " + b + ") < 0)"
+		case "<=":
+			return "(govcCmp(" + a + ", " + b + ") <= 0)"
+		case ">":
+			return "(govcCmp(" + a + ", " + b + ") > 0)"
+		case ">=":
+			return "(govcCmp(" + a + ", " + b + ") >= 0)"
 		}
 		return "(" + a + " " + x.Op + " " + b + ")"
 	case *SCall:
@@ -322,8 +341,8 @@ func (v *Verifier) genReplayTest(o *Obligation, con *Contract, fn *ssa.Function)
 	}
 	for _, mv := range o.ModelVars {
 		val, ok := o.Model[mv.Name]
-		if !ok || mv.Path == "" {
-			continue
+		if !ok || mv.Path == "" || strings.Contains(mv.Path, "$") {
+			continue // (ghost fields cannot be initialised: a fresh buffer is empty)
 		}
 		pi := get(mv.Path)
 		pi.gotype = mv.GoType
@@ -384,6 +403,19 @@ func (v *Verifier) genReplayTest(o *Obligation, con *Contract, fn *ssa.Function)
 	tooBig := false
 	for _, pi := range paths {
 		lhs := pi.path
+		root := lhs
+		if i := strings.IndexAny(root, ".[*("); i >= 0 {
+			root = strings.Trim(root[:i], "(*")
+			if root == "" {
+				root = strings.Trim(strings.TrimLeft(lhs, "(*"), ")")
+				if j := strings.IndexAny(root, ".[)"); j >= 0 {
+					root = root[:j]
+				}
+			}
+		}
+		if !declared[root] {
+			continue // package-level variables and constants keep the values the program gives them
+		}
 		switch pi.role {
 		case "ptr":
 			if pi.val == "0" || pi.val == "" {
@@ -534,9 +566,9 @@ func (v *Verifier) genReplayTest(o *Obligation, con *Contract, fn *ssa.Function)
 		body.WriteString("\tif !govcTry(func() bool { return " + clauseGo + " }) {\n\t\tfmt.Println(\"GOVC-REPLAY: confirmed (the real code violates the clause on the model's input)\")\n\t\treturn\n\t}\n")
 	}
 	body.WriteString("\tfmt.Println(\"GOVC-REPLAY: not-reproduced\")\n")
-	imports := []string{"\"fmt\"", "\"testing\""}
+	imports := []string{"\"fmt\"", "\"testing\"", "\"reflect\""}
 	full := body.String()
-	for _, cand := range []struct{ pfx, imp string }{{"syntax.", "\"github.com/dlclark/regexp2/v2/syntax\""}, {"helpers.", "\"github.com/dlclark/regexp2/v2/helpers\""}, {"time.", "\"time\""}, {"unicode.", "\"unicode\""}, {"utf8.", "\"unicode/utf8\""}, {"bytes.", "\"bytes\""}} {
+	for _, cand := range []struct{ pfx, imp string }{{"syntax.", "\"github.com/dlclark/regexp2/v2/syntax\""}, {"helpers.", "\"github.com/dlclark/regexp2/v2/helpers\""}, {"time.", "\"time\""}, {"unicode.", "\"unicode\""}, {"utf8.", "\"unicode/utf8\""}, {"bytes.", "\"bytes\""}, {"strings.", "\"strings\""}, {"strconv.", "\"strconv\""}} {
 		if strings.Contains(full, cand.pfx) && pkgName != strings.TrimSuffix(cand.pfx, ".") {
 			imports = append(imports, cand.imp)
 		}
@@ -568,6 +600,77 @@ const replayHelpers = `func govcTry(f func() bool) (ok bool) {
 func govcTryDo(f func()) {
 	defer func() { recover() }()
 	f()
+}
+
+// comparisons of the specification are over mathematical integers: operands of different Go integer types compare by value
+func govcNum(x any) (neg bool, mag uint64, ok bool) {
+	v := reflect.ValueOf(x)
+	switch v.Kind() {
+	case reflect.Int, reflect.Int8, reflect.Int16, reflect.Int32, reflect.Int64:
+		i := v.Int()
+		if i < 0 {
+			return true, uint64(-(i + 1)) + 1, true
+		}
+		return false, uint64(i), true
+	case reflect.Uint, reflect.Uint8, reflect.Uint16, reflect.Uint32, reflect.Uint64, reflect.Uintptr:
+		return false, v.Uint(), true
+	}
+	return false, 0, false
+}
+
+func govcCmp(a, b any) int {
+	an, am, ok1 := govcNum(a)
+	bn, bm, ok2 := govcNum(b)
+	if !ok1 || !ok2 {
+		panic("govc: ordered comparison of non-integers")
+	}
+	switch {
+	case an && !bn:
+		return -1
+	case !an && bn:
+		return 1
+	case an && bn:
+		am, bm = bm, am
+	}
+	switch {
+	case am < bm:
+		return -1
+	case am > bm:
+		return 1
+	}
+	return 0
+}
+
+func govcIsNil(x any) bool {
+	if x == nil {
+		return true
+	}
+	v := reflect.ValueOf(x)
+	switch v.Kind() {
+	case reflect.Ptr, reflect.Slice, reflect.Map, reflect.Func, reflect.Interface, reflect.Chan:
+		return v.IsNil()
+	}
+	return false
+}
+
+func govcEq(a, b any) bool {
+	if _, _, ok := govcNum(a); ok {
+		if _, _, ok2 := govcNum(b); ok2 {
+			return govcCmp(a, b) == 0
+		}
+	}
+	if govcIsNil(a) || govcIsNil(b) {
+		return govcIsNil(a) && govcIsNil(b)
+	}
+	va, vb := reflect.ValueOf(a), reflect.ValueOf(b)
+	if (va.Kind() == reflect.Ptr || va.Kind() == reflect.Map || va.Kind() == reflect.Func) && va.Kind() == vb.Kind() {
+		return va.Pointer() == vb.Pointer()
+	}
+	if va.Kind() == reflect.Slice && vb.Kind() == reflect.Slice {
+		// slice values are equal when they denote the same elements of the same array
+		return va.Pointer() == vb.Pointer() && va.Len() == vb.Len()
+	}
+	return reflect.DeepEqual(a, b) || func() (eq bool) { defer func() { recover() }(); return a == b }()
 }
 
 func govcIte[T any](c bool, a, b T) T {
